@@ -285,10 +285,18 @@ def gen_patterns(rng, files: list[str], dirs: list[str], root_rel: str) -> list[
 
 def gen_case(rng, cid: str, stream: str = "cli") -> dict:
     layout = rng.choice(["norepo_cfg", "norepo_cfg", "norepo_nocfg", "repo_root_cfg", "repo_root_cfg", "repo_root_nocfg",
-                         "repo_above", "repo_above", "repo_above"])
+                         "repo_above", "repo_above", "repo_above",
+                         # the project is a checkout whose `.git` is a FILE: a linked worktree (`git worktree add`) or a
+                         # submodule of the outer repository g; with / without own pytask configuration / with a
+                         # pyproject.toml that has no pytask section
+                         "linked_cfg", "linked_nocfg", "linked_nocfg", "linked_nosection"])
     if stream == "dirnode":
         layout = rng.choice(["norepo_cfg", "repo_root_cfg"])
-    if layout == "repo_above":
+    link_kind = None
+    if layout.startswith("linked"):
+        link_kind = rng.choice(["worktree", "submodule"])
+        git_top = root_rel = "g/w" if link_kind == "worktree" else "g/s"
+    elif layout == "repo_above":
         git_top = "g"
         root_rel = rng.choice(["g/r", "g/r", "g/m/r"])
     elif layout.startswith("repo_root"):
@@ -367,8 +375,18 @@ def gen_case(rng, cid: str, stream: str = "cli") -> dict:
             cfg += "exclude = [" + ", ".join(json.dumps(p) for p in cfg_pats) + "]\n"
         case_files[f"{root_rel}/pyproject.toml"] = cfg
 
+    if layout == "linked_nosection":
+        case_files[f"{root_rel}/pyproject.toml"] = "[tool.black]\nline-length = 88\n"
+
     # --- outside of the project but inside the repository
     outer = []
+    if link_kind:
+        for nm in rng.sample(["README.md", "LICENSE", "other/o.txt"], rng.randint(1, 2)):
+            case_files[f"g/{nm}"] = "outer\n"
+            outer.append(f"g/{nm}")
+        if rng.random() < 0.5:      # the outer directory is a pytask project of its own
+            case_files["g/pyproject.toml"] = "[tool.pytask.ini_options]\n"
+            outer.append("g/pyproject.toml")
     if layout == "repo_above":
         for nm in rng.sample(["README.md", "LICENSE", "other/o.txt", "m/side.txt"], rng.randint(1, 3)):
             case_files[f"g/{nm}"] = "outer\n"
@@ -389,6 +407,8 @@ def gen_case(rng, cid: str, stream: str = "cli") -> dict:
         staged = [c for c in rest if rng.random() < 0.25]
         modify = {c: "changed after commit\n" for c in tracked if rng.random() < 0.1 and not c.endswith((".py", ".toml"))}
         git = {"top": git_top, "tracked": tracked, "staged": staged, "modify_after": modify}
+        if link_kind:
+            git.update({"kind": link_kind, "outer": "g", "outer_tracked": [o for o in outer if rng.random() < 0.5]})
 
     # --- flags and paths
     args = []
@@ -541,6 +561,8 @@ def forbidden_categories(case: dict, obs: dict, snap: dict[str, str], roots: lis
     cats["declared-node"] = set(declared_nodes(case, roots))
     cats["config"] = {f"{root}/pyproject.toml"} if case["has_cfg"] else set()
     cats["git-tracked"] = set(obs.get("git_ls", []))
+    # the `.git` FILE of a linked worktree / submodule is the checkout's connection to its repository
+    cats["git-link-file"] = {f"{case['git']['top']}/.git"} if case["git"] and snap.get(f"{case['git']['top']}/.git", "d") != "d" else set()
     cats["pytask-dir"] = {p for p in snap if p.startswith(f"{root}/.pytask/")}
     ex = set()
     pats = [p.replace("{W}", V) for p in spec_patterns(case)]
